@@ -31,6 +31,7 @@ type FuncSpec struct {
 	Requires []*Clause
 	Ensures  []*Clause
 	Assumes  []*Clause
+	AssumedEnsures []*Clause // postconditions used by callers but NOT proved for the body (listed as assumptions)
 	Cases    []*Clause // case split: the function is verified once per case, with the case as an extra assumption;
 	// an additional obligation proves the cases are exhaustive under the precondition
 	Modifies []string // heap specs; nil = infer; ["nothing"]
@@ -76,6 +77,7 @@ type Guard struct {
 	Expr   Expr
 	Src    string
 	Name   string // optional label
+	In     string // optional: restrict to call sites inside this function
 	Line   int
 }
 
@@ -293,7 +295,7 @@ func (db *SpecDB) parseClause(fs *FuncSpec, word, rest string, line int) error {
 			return fmt.Errorf("%s: %v", word, err)
 		}
 		fs.Cases = append(fs.Cases, &Clause{Kind: "case", Expr: e, Src: rest, Line: line, Slow: true})
-	case "requires", "ensures", "assume", "case":
+	case "requires", "ensures", "assume", "case", "ensures-assumed":
 		e, err := parseExpr(rest)
 		if err != nil {
 			return fmt.Errorf("%s: %v", word, err)
@@ -308,6 +310,8 @@ func (db *SpecDB) parseClause(fs *FuncSpec, word, rest string, line int) error {
 			fs.Assumes = append(fs.Assumes, c)
 		case "case":
 			fs.Cases = append(fs.Cases, c)
+		case "ensures-assumed":
+			fs.AssumedEnsures = append(fs.AssumedEnsures, c)
 		}
 	case "modifies":
 		fs.HasMod = true
@@ -472,7 +476,9 @@ func parseGuard(rest string) (*Guard, error) {
 		return nil, fmt.Errorf("guard call|store <target>")
 	}
 	g := &Guard{Kind: head[0], Target: head[1]}
-	if len(head) > 2 {
+	if len(head) > 3 && head[2] == "in" {
+		g.In = head[3] // only sites inside this function (key suffix match)
+	} else if len(head) > 2 {
 		g.Name = head[2]
 	}
 	e, err := parseExpr(rest[i+1:])
